@@ -9,13 +9,10 @@ NOTE_COMMON = ("Trusted: Lean 4.33 kernel; axioms propext/Classical.choice/Quot.
                "theorem statements; the hand-written executable model and the differential tie (Rust harness with path "
                "deps on /repo, python generators, canonicalisation); std/external crates by contract (DESIGN section 9).")
 
-CLAIMED = {
-    "C11": dict(
-        text=("Lean 4 theorems over ALL histories of set/from_iter/fluent_args!: sorted invariant, get = last write, "
-              "iteration = each key once with get's value, canonical form. Model tied to fluent_bundle::FluentArgs by "
-              "differential execution of random and (thorough) exhaustive small histories plus an independent map oracle."),
-        design="6/C11", technique="Lean 4 proof (induction over op list) + model/implementation correspondence check"),
-}
+CLAIMED = {}
+for f in sorted(os.listdir(os.path.join(V, "tools", "claims"))):
+    if f.endswith(".json"):
+        CLAIMED[f[:-5]] = json.load(open(os.path.join(V, "tools", "claims", f)))
 
 PENDING_REASON = "not claimed yet: model/theorems for this property are still being built (see DESIGN.md section 10 order of work)"
 
